@@ -56,6 +56,8 @@ func c14Run(u *vfUnit) {
 		var dmu sync.Mutex
 		if kind == vfRS {
 			store = vfNewStore()
+			// the objects honour the context of the request that opened them: it stays live until the handle is closed
+			store.CtxBoundObjects = true
 			cfg.H = store.Handlers(vfHandlerOpt{OpenFile: bi%2 == 0})
 			// "for all relative speeds": in a few bursts one handler call takes seconds, not microseconds
 			// (a wait with a built-in patience of a second or three would give up on it)
